@@ -148,6 +148,15 @@ func TestSenderReports(t *testing.T) {
 		}
 		doTick := func() {
 			now = now.Add(dt.Draw(t, "tickdt"))
+			if rapid.IntRange(0, 3).Draw(t, "snap") == 0 {
+				// report instants a few nanoseconds before a whole second: where a seconds/fraction split of the NTP conversion can lose its carry
+				snapped := now.Truncate(time.Second).Add(time.Second - time.Duration(rapid.SampledFrom([]int{1, 2, 50, 119, 120, 200, 238, 477, 1000}).Draw(t, "beforeSecondNs")))
+				if snapped.Before(now) {
+					snapped = snapped.Add(time.Second)
+				}
+				now = snapped
+				classes["report-just-before-a-whole-second"] = true
+			}
 			clk.set(now)
 			from := rtcpSink.Len()
 			select {
